@@ -263,4 +263,14 @@ theorem str_run_refines (ops : List StrOp) : ∀ (st : StrSt), StrInv st →
     rw [← (str_step_refines op st h).1]
     exact ih _ (str_step_inv op st h)
 
+theorem str_outs_refine (ops : List StrOp) : ∀ (st : StrSt), StrInv st →
+    strOuts ops st = strSpecOuts ops (strAbs st) := by
+  induction ops with
+  | nil => intro st _; rfl
+  | cons op ops ih =>
+    intro st h
+    simp only [strOuts, strSpecOuts]
+    rw [← (str_step_refines op st h).1, ← (str_step_refines op st h).2]
+    rw [ih _ (str_step_inv op st h)]
+
 end Qentem.Seq
